@@ -268,7 +268,7 @@ pub(crate) mod proofs {
             kani::cover!(true, "end of harness reachable (vacuity guard)");
         }
 
-        // @props C04 C07
+        // @props C04 C07 C09 C03
         #[kani::proof] #[kani::unwind($unw)] #[kani::stub(std::hint::spin_loop, noop)]
         fn register_stream_waker() {
             let s = any_sm_state::<M>();
